@@ -131,6 +131,10 @@ func genRequest(r *rng, adversarial bool) (uint8, interface{}) {
 }
 
 type k4Conn struct {
+	// ioFid: a fid that was just opened (Tlopen / Tlcreate succeeded): the next requests often do
+	// I/O on it (-1: none); ioLeft counts them down
+	ioFid  int64
+	ioLeft int
 	// faultFid: the fid of the last request that was refused after reaching the backend (-1: none)
 	faultFid int64
 	peer     *rawPeer
@@ -278,6 +282,14 @@ func runK4(r *rng, n int, adversarial bool) {
 					t, m = ft, fm
 				}
 				c.faultFid = -1
+				// I/O on a fid that was opened a moment ago (reads, writes, readdir, fsync reach the backend
+				// only on opened fids: without this they are rare)
+				if c.ioLeft > 0 && r.chance(1, 2) {
+					c.ioLeft--
+					ft := []uint8{116, 118, 118, 116, 40, 50}[r.intn(6)]
+					t, m = ft, mk(ft, map[string]interface{}{"fid": uint64(c.ioFid), "Directory": uint64(c.ioFid), "Count": uint64(r.intn(64)),
+						"Offset": uint64(r.intn(8)), "Data": r.bytesN(r.intn(12))})
+				}
 				if len(c.bound) == 0 && r.chance(3, 4) {
 					// nothing bound (any more): attach again
 					t = 104
@@ -299,6 +311,9 @@ func runK4(r *rng, n int, adversarial bool) {
 			rhs := exchange(c, tag, m)
 			if len(rhs) > 0 {
 				c.track(t, m, rhs[0])
+				if (t == 12 && rhs[0] == "rtyp=13") || (t == 14 && rhs[0] == "rtyp=15") {
+					c.ioFid, c.ioLeft = int64(fieldUint(m, "fid")), 3
+				}
 			}
 			if len(rhs) > 0 && (rhs[0] == "noreply" || rhs[0] == "writeerr") {
 				// the server ended the connection (or hangs): its stop() runs now; report the
@@ -371,6 +386,8 @@ func setFields(m interface{}, vals map[string]interface{}) {
 				f.Val.Set(reflect.ValueOf(x))
 			case []byte:
 				f.Val.SetBytes(x)
+			case bool:
+				f.Val.SetBool(x)
 			}
 		}
 	}
